@@ -25,7 +25,7 @@ pub fn def() -> PropertyDef {
         extra: no_extra,
         replay_custom: no_custom,
         assumptions: &[
-            "per frame: (hook log-F0 != no-data) <=> (voicing weight of the frame's state, from the public Models::model_stream(1), > threshold[1]); frame -> state mapping from the public duration estimator",
+            "per frame: (hook log-F0 != no-data) <=> (voicing weight of the frame's state > threshold[1]); the weight is computed independently as the weighted sum of the per-voice public lookups (voice sets included); frame -> state mapping from the public duration estimator",
             "thresholds include values exactly equal to a state's voicing weight (strict comparison)",
             "independence: changing threshold[i] or GV weight[i] leaves the other streams' hook trajectories bitwise unchanged",
         ],
@@ -89,9 +89,29 @@ impl Prop for Voicing {
             Err(e) => fail!("label-load", "{}", e),
         };
         let models = Models::new(labels.labels(), &engine.voices, cond0.get_interporation_weight());
-        let msd: Vec<f64> = models.model_stream(1).stream.iter().map(|s| s.1).collect();
+        // voicing weight per state, computed independently of Models::stream: the weighted sum of
+        // the per-voice lookups (single voice: weight 1)
+        let w1: Vec<f64> = cond0.get_interporation_weight().get_parameter(1).to_vec();
+        let nvoices = engine.voices.len();
+        let nstate = models.nstate();
+        let mut msd: Vec<f64> = Vec::new();
+        for l in labels.labels() {
+            for s in 0..nstate {
+                let mut acc = 0.0;
+                for (vi, v) in engine.voices.iter().enumerate() {
+                    let m = v.stream_models[1].stream_model.get_parameter(s + 2, l).msd.unwrap_or(f64::MAX);
+                    if vi == 0 {
+                        acc = w1[0] * m;
+                    } else {
+                        acc += w1[vi] * m;
+                    }
+                }
+                msd.push(acc);
+            }
+        }
+        let is_set = nvoices > 1;
         if let Some(k) = c.tie_state {
-            if !msd.is_empty() {
+            if !msd.is_empty() && !is_set {
                 engine.condition.set_msd_threshold(1, msd[k % msd.len()]);
             }
         }
@@ -105,10 +125,12 @@ impl Prop for Voicing {
         let mut nvoiced = 0usize;
         for (s, d) in durations.iter().enumerate() {
             let want = msd[s] > thr;
+            // in a voice set the interpolated weight is only specified up to rounding
+            let ambiguous = is_set && (msd[s] - thr).abs() <= 1e-12;
             for _ in 0..*d {
                 let got = tr.lf0[t][0] != NODATA;
                 ensure!(
-                    got == want,
+                    got == want || ambiguous,
                     "voicing-rule",
                     "frame {} (state {}): voicing weight {} vs threshold {} -> expected {}, generated log-F0 {}",
                     t, s, msd[s], thr, if want { "voiced" } else { "unvoiced" }, tr.lf0[t][0]
